@@ -75,7 +75,7 @@ c17_all!(c17_n6, 6);
 macro_rules! c17_one {
     ($name:ident, $n:expr, $o:expr) => {
         #[kani::proof]
-        #[kani::unwind(12)]
+        #[kani::unwind(14)]
         pub fn $name() {
             body_o($n, $o);
         }
@@ -93,6 +93,18 @@ c17_one!(c17_n8_uw, 8, Orientation::UW);
 c17_one!(c17_n8_wu, 8, Orientation::WU);
 c17_one!(c17_n8_vw, 8, Orientation::VW);
 c17_one!(c17_n8_wv, 8, Orientation::WV);
+c17_one!(c17_n9_uv, 9, Orientation::UV);
+c17_one!(c17_n9_vu, 9, Orientation::VU);
+c17_one!(c17_n9_uw, 9, Orientation::UW);
+c17_one!(c17_n9_wu, 9, Orientation::WU);
+c17_one!(c17_n9_vw, 9, Orientation::VW);
+c17_one!(c17_n9_wv, 9, Orientation::WV);
+c17_one!(c17_n10_uv, 10, Orientation::UV);
+c17_one!(c17_n10_vu, 10, Orientation::VU);
+c17_one!(c17_n10_uw, 10, Orientation::UW);
+c17_one!(c17_n10_wu, 10, Orientation::WU);
+c17_one!(c17_n10_vw, 10, Orientation::VW);
+c17_one!(c17_n10_wv, 10, Orientation::WV);
 
 /// History independence: the same statement when s_to_anchor / ij_to_s have just been used for an
 /// arbitrary *other* (position, orientation) of the same depth — a result must not depend on the
